@@ -38,6 +38,10 @@ TOK = re.compile(r"""
  | (?P<mapw>\b(?P<mapn>pendingConnects|receiveBuffers)\s*\[\s*sid\s*\]\s*=)
  | (?P<maperase>\b(?P<mape>pendingConnects|receiveBuffers|readModes)\s*\.\s*erase\s*\()
  | (?P<mapfind>\b(?P<mapf>pendingConnects|receiveBuffers|readModes)\s*\.\s*(?:find|size|begin|end)\s*\()
+ | (?P<ifnonempty>\bif\s*\(\s*!\s*buf->data\s*\.\s*empty\s*\(\s*\)\s*\))
+ | (?P<ifempty>\bif\s*\(\s*buf->data\s*\.\s*empty\s*\(\s*\)\s*\))
+ | (?P<swapdata>\b(?:flushData\s*\.\s*swap\s*\(\s*buf->data\s*\)|buf->data\s*\.\s*swap\s*\(\s*flushData\s*\)))
+ | (?P<elsekw>\belse\b)
  | (?P<append>\bdata\s*\.\s*insert\s*\()
  | (?P<consume>\bdata\s*\.\s*erase\s*\()
  | (?P<take>std::move\s*\(\s*buf->data\s*\))
@@ -143,7 +147,7 @@ def blank_strings(body):
     return re.sub(r'"(?:[^"\\\n]|\\.)*"', lambda m: '"' + " " * (len(m.group(0)) - 2) + '"', body)
 
 
-def skeleton(body, where, mutex_alias=None):
+def skeleton(body, where, mutex_alias=None, track_else=False):
     mutex_alias = mutex_alias or {}
     body = blank_strings(body)
     ev = []
@@ -225,6 +229,15 @@ def skeleton(body, where, mutex_alias=None):
             ev.append(("erase", m.group("mape"), h))
         elif m.group("mapfind"):
             ev.append(("read", m.group("mapf"), h))
+        elif m.group("ifnonempty"):
+            ev.append(("cmp", "data-nonempty", h))
+        elif m.group("ifempty"):
+            ev.append(("cmp", "data-empty", h))
+        elif m.group("swapdata"):
+            ev.append(("take", "data", h))
+        elif m.group("elsekw"):
+            if track_else:
+                ev.append(("else", "", h))
         elif m.group("append"):
             ev.append(("append", "data", h))
         elif m.group("consume"):
@@ -448,7 +461,7 @@ def gen(repo):
     rows.append(("stop", skeleton(method_body(src, r"\bvoid\s+Transport::stop\s*\(", "Transport::stop"), "stop")))
     rows.append(("connectSync", skeleton(method_body(src, r"\bTransport::connectSync\s*\(", "Transport::connectSync"), "connectSync")))
     rows.append(("receiveSync", skeleton(method_body(src, r"\bTransport::receiveSync\s*\(", "Transport::receiveSync"), "receiveSync")))
-    rows.append(("setReadMode", skeleton(method_body(src, r"\bTransport::setReadMode\s*\(", "Transport::setReadMode"), "setReadMode")))
+    rows.append(("setReadMode", skeleton(method_body(src, r"\bTransport::setReadMode\s*\(", "Transport::setReadMode"), "setReadMode", track_else=True)))
     rows.append(("connectSyncCancellable", skeleton(method_body(src, r"\bITransport::connectSyncCancellable\s*\(", "ITransport::connectSyncCancellable"), "connectSyncCancellable")))
     # every other function of the file that takes syncMutex must be one the models know to be single-shot
     known_single = {"getReadMode"}
